@@ -18,7 +18,7 @@ pub fn meta() -> Meta {
             "refmodel::grammar is the documented language; spellings it leaves open (lower-case pc, identifiers starting with R/PC/SP, 0X/0B, blanks inside parentheses or before commas, several blanks after '#! mrasm', CR line ends, duplicate label definitions, ';' at the ends of a comment, non-decimal .EQU values) are only checked for 'no panic'",
             "a trailing newline may or may not produce one more empty line in the AST",
         ],
-        floors: vec![("generated_accepted_with_right_ast", 20_000), ("directed_cases", 60), ("mutants_judged", 50_000), ("mutants_must_reject", 20_000), ("mutants_must_accept", 5_000), ("random_strings_judged", 20_000), ("errors_rendered", 20_000)],
+        floors: vec![("generated_accepted_with_right_ast", 20_000), ("directed_cases", 140), ("texts_with_mixed_line_terminators", 10_000), ("mutants_judged", 50_000), ("mutants_must_reject", 20_000), ("mutants_must_accept", 5_000), ("random_strings_judged", 20_000), ("errors_rendered", 20_000)],
     }
 }
 
@@ -297,6 +297,22 @@ fn directed() -> Vec<(String, bool)> {
     v.push(("NOP".to_string(), false));
     v.push(("".to_string(), false));
     v.push(("#!mrasm\nNOP".to_string(), false));
+    // the limit of 40 definitions, far beyond it, and around the multiples of 256
+    for n in [0usize, 1, 39, 40, 41, 42, 80, 255, 256, 257, 270, 296, 297, 300, 511, 512, 513, 552, 553, 1000] {
+        for style in 0..3 {
+            let mut t = String::from("#! mrasm\n");
+            for j in 0..n {
+                match (style, j % 2) {
+                    (0, _) | (2, 0) => t.push_str(&format!("l{}:\n", j)),
+                    _ => t.push_str(&format!(".EQU e{} {}\n", j, j % 256)),
+                }
+            }
+            t.push_str(" NOP\n");
+            v.push((t, n <= 40));
+        }
+    }
+    v.push(("#! mrasm\nNOP\r\r\nSTOP\n".to_string(), true));
+    v.push(("#! mrasm\rNOP\rSTOP".to_string(), true));
     v.push(("#! MRASM\nNOP".to_string(), false));
     v.push(("#! mrasm".to_string(), true));
     v.push(("#! mrasm ; hello".to_string(), true));
@@ -334,7 +350,25 @@ pub fn run(ctx: &Ctx) -> Report {
         let mut opts = Opts::parser();
         for k in 0..200 {
             opts.max_lines = if k % 20 == 0 { 60 } else { 14 };
-            let g = asmtext::program(&mut rng, &opts);
+            let mut g = asmtext::program(&mut rng, &opts);
+            if k % 9 == 4 {
+                // the three line terminators of the grammar, mixed line by line
+                let mut t = String::with_capacity(g.text.len() + 16);
+                for ch in g.text.chars() {
+                    if ch == '\n' {
+                        let mut term = ["\n", "\r\n", "\r", "\r\n"][rng.usize(4)];
+                        if term == "\n" && t.ends_with('\r') {
+                            // a lone CR followed by LF would read as one CRLF
+                            term = "\r\n";
+                        }
+                        t.push_str(term);
+                    } else {
+                        t.push(ch);
+                    }
+                }
+                g.text = t;
+                rep.inc("texts_with_mixed_line_terminators");
+            }
             rep.evaluations += 1;
             // (1) generated text: the expected AST is known by construction
             match real_parse(&g.text, rep) {
